@@ -153,6 +153,30 @@ def check(scn, k, res, stream, sock, state, core):
     if k.abort_reason in ("wall-timeout",) or (k.abort_reason or "").startswith("tripwire"):
         V("harness", reason=k.abort_reason)
         return viol
+    # reach probes on the stream/fragmentation itself
+    bounds = []
+    pos_ = 0
+    for _, h in scn["arrivals"]:
+        pos_ += len(h) // 2
+        bounds.append(pos_)
+    nl = [i for i, b in enumerate(stream) if b == 10]
+    if any(stream[b - 1:b] == b"\n" for b in bounds if b):
+        k.probe("c17.newline_last_byte_of_chunk")
+    prev = 0
+    starts = [0] + [i + 1 for i in nl]
+    for a_, e_ in zip(starts, nl):
+        crossed = sum(1 for b in bounds if a_ < b <= e_)
+        if crossed >= 2:
+            k.probe("c17.line_spans_3plus_chunks")
+            break
+    prevb = 0
+    for b in bounds:
+        if stream[prevb:b].count(b"\n") >= 2:
+            k.probe("c17.several_lines_in_one_chunk")
+            break
+        prevb = b
+    if b"\n\n" in stream:
+        k.probe("c17.empty_line")
     handed = bytes(sock.handed) if sock is not None else b""
     results = res["results"]
     if core:
